@@ -126,6 +126,18 @@ pub fn run(_args: &[String]) -> i32 {
             }
         }
     }
+    // a rewrite rule whose `code` group captures the empty string (and a code with spaces / parentheses-free punctuation)
+    {
+        let cfg3 = cfg.replace("payee: \"(?P<code>[0-9]+) (?P<payee>.*)\"", "payee: \"(?P<code>[0-9 #/.-]*)\\\\|(?P<payee>.*)\"");
+        for (i, text) in ["|Shop", "12 34|Shop", "#7/8.9-0|Shop", " |Shop"].iter().enumerate() {
+            evaluated += 1;
+            let csv = format!("Date,Text,Note,Amount,Balance,Charge\n2024-05-01,\"{}\",,-12.5,987.5,\n", text);
+            if let Some((desc, why)) = one(tmp.path(), &format!("code{}", i), &cfg3, "gen.csv", csv.as_bytes(), Format::Csv) {
+                let key = format!("csv payee field = {:?} with a code-capturing rule: {}", text, why.split("\nprinted:").next().unwrap_or(""));
+                if bad.len() < 12 { bad.push((desc, why)); keys.push(key); }
+            }
+        }
+    }
     // long counter accounts: the printed amount must stay separated from the account by two spaces
     for l in 34..=48usize {
         evaluated += 1;
